@@ -4,7 +4,7 @@
 # the demonstration fails with it and passes without it; then stores it under /verif/seeded/<PROP>-<N>/ and runs the
 # given checks (default: <PROP>) against a scratch copy with the change applied.
 PROP="$1"; N="$2"; shift 2
-WT="/tmp/seed-$PROP"; OUT="$WT/out"; DIFF="$OUT/change$N.diff"
+WT="${SEED_WT:-/tmp/seed-$PROP}"; OUT="$WT/out"; DIFF="$OUT/change$N.diff"
 [ -f "$DIFF" ] || { echo "no $DIFF"; exit 2; }
 cd "$WT" || exit 2
 git checkout -q -- . 
